@@ -666,12 +666,20 @@ func (b *Buffer) reverseRange(start, end int) {
 		return
 	}
 	info := b.Info[start:end]
-	pos := b.Pos[start:end]
 	L := len(info)
-	_ = pos[L-1] // BCE
 	for i := L/2 - 1; i >= 0; i-- {
 		opp := L - 1 - i
 		info[i], info[opp] = info[opp], info[i]
+	}
+	// the positions are only meaningful (and in sync with `Info`) once they have
+	// been computed, see clearPositions: before that, glyphs may have been inserted
+	if len(b.Pos) != len(b.Info) {
+		return
+	}
+	pos := b.Pos[start:end]
+	_ = pos[L-1] // BCE
+	for i := L/2 - 1; i >= 0; i-- {
+		opp := L - 1 - i
 		pos[i], pos[opp] = pos[opp], pos[i] // same length
 	}
 }
